@@ -1181,45 +1181,82 @@ Proof.
   - destruct H as [H|H]; [congruence|]. destruct (get gkey_eqb (gk d) (f_cas s1)); [eauto|congruence].
 Qed.
 
-Lemma file_step_inv ig ov s o : file_inv s -> file_inv (fst (file_step true ig ov s o)).
+(* the theorems about the file store exclude the aliasing name *)
+Definition no_alias (o : op) : Prop :=
+  match o with Push d _ => path_of (d_name d) = d_name d | _ => True end.
+
+Lemma file_index_after_inv d s1 : file_inv s1 -> file_inv (fst (file_index_after d s1)).
 Proof.
-  intros Hinv. pose proof Hinv as [A B C]. destruct o; cbn [file_step]; try exact Hinv.
+  intro H. unfold file_index_after. destruct (is_manifest (d_mt d)).
+  - destruct (file_fetch d s1); cbn [fst]; [now apply file_inv_graph | exact H].
+  - cbn [fst]. now apply file_inv_graph.
+Qed.
+
+Lemma file_index_after_succeeds d s1 :
+  file_inv s1 -> name_ok d s1 = true ->
+  (get N.eqb (d_dig d) (f_d2p s1) <> None \/ get gkey_eqb (gk d) (f_cas s1) <> None) ->
+  snd (file_index_after d s1) = FO OOk.
+Proof.
+  intros H Hn Hp. unfold file_index_after. destruct (is_manifest (d_mt d)); [|reflexivity].
+  destruct (file_index_after_ok d s1 H Hn Hp) as (c1 & ->). reflexivity.
+Qed.
+
+Lemma file_inv_unnamed s d c' :
+  file_inv s -> verify d c' = true ->
+  file_inv (mkFile (f_names s) (f_d2p s) (f_disk s) (put gkey_eqb (gk d) c' (f_cas s)) (f_res s) (f_graph s)).
+Proof.
+  intros [A B C] V. constructor; cbn [f_names f_d2p f_disk f_cas]; auto. intros k c0.
+  destruct (gdec k (gk d)) as [->|Hne].
+  - rewrite (get_put_eq gkey_eqb gkey_eqb_spec). intro E. injection E as <-.
+    apply verify_spec in V as [V _]. exact V.
+  - rewrite (get_put_neq gkey_eqb gkey_eqb_spec) by exact Hne. apply C.
+Qed.
+
+Lemma file_inv_named s d c :
+  file_inv s -> verify d c = true -> ~ In (d_name d) (f_names s) ->
+  file_inv (mkFile (d_name d :: f_names s) (put N.eqb (d_dig d) (d_name d) (f_d2p s))
+                   (put N.eqb (d_name d) c (f_disk s)) (f_cas s) (f_res s) (f_graph s)).
+Proof.
+  intros [A B C] V Hnot. constructor; cbn [f_names f_d2p f_disk f_cas]; auto.
+  - intros g p. destruct (N.eq_dec g (d_dig d)) as [->|Hne].
+    + rewrite (get_put_eq N.eqb Neqb_spec). intro E. injection E as <-. split; [now left|].
+      exists c. rewrite (get_put_eq N.eqb Neqb_spec). split; auto. now apply verify_spec in V as [V _].
+    + rewrite (get_put_neq N.eqb Neqb_spec) by exact Hne. intro E.
+      destruct (A _ _ E) as (Hp & c0 & Hc0 & Hh). split; [now right|]. exists c0. split; auto.
+      rewrite (get_put_neq N.eqb Neqb_spec); auto. intro; subst. contradiction.
+  - intros p c0. destruct (N.eq_dec p (d_name d)) as [->|Hne]; [intros _; now left|].
+    rewrite (get_put_neq N.eqb Neqb_spec) by exact Hne. intro E. right. eapply B; eauto.
+Qed.
+
+Lemma file_inv_failed s d :
+  file_inv s -> ~ In (d_name d) (f_names s) ->
+  file_inv (mkFile (f_names s) (f_d2p s) (del N.eqb (d_name d) (f_disk s)) (f_cas s) (f_res s) (f_graph s)).
+Proof.
+  intros [A B C] Hnot. constructor; cbn [f_names f_d2p f_disk f_cas]; auto.
+  - intros g p E. destruct (A _ _ E) as (Hp & c0 & Hc0 & Hh). split; auto. exists c0. split; auto.
+    rewrite (get_del_neq N.eqb Neqb_spec); auto. intro; subst. contradiction.
+  - intros p c0 E. destruct (N.eq_dec p (d_name d)) as [->|Hne].
+    + rewrite (get_del_eq N.eqb) in E. discriminate.
+    + rewrite (get_del_neq N.eqb Neqb_spec) in E by exact Hne. eapply B; eauto.
+Qed.
+
+Lemma file_step_inv ig ov s o : no_alias o -> file_inv s -> file_inv (fst (file_step true ig ov s o)).
+Proof.
+  intros Hna Hinv. pose proof Hinv as [A B C]. destruct o; cbn [file_step]; try exact Hinv.
   - (* Push *)
+    cbn [no_alias] in Hna. rewrite Hna.
     destruct (d_name d =? 0) eqn:En.
     + destruct ig; [exact Hinv|].
       destruct (get gkey_eqb (gk d) (f_cas s)) eqn:Ec; [exact Hinv|].
       destruct (verify d (limit_reader d c)) eqn:V; [|exact Hinv].
-      set (s1 := mkFile _ _ _ (put gkey_eqb (gk d) (limit_reader d c) (f_cas s)) _ _).
-      assert (H1 : file_inv s1).
-      { constructor; cbn [s1 f_names f_d2p f_disk f_cas]; auto. intros k c0.
-        destruct (gdec k (gk d)) as [->|Hne].
-        - rewrite (get_put_eq gkey_eqb gkey_eqb_spec). intro E. injection E as <-.
-          apply verify_spec in V as [V _]. exact V.
-        - rewrite (get_put_neq gkey_eqb gkey_eqb_spec) by exact Hne. apply C. }
-      destruct (file_fetch d s1); cbn [fst]; [now apply file_inv_graph | exact H1].
+      apply file_index_after_inv. now apply file_inv_unnamed.
     + destruct (mem N.eqb (d_name d) (f_names s)) eqn:Em; [exact Hinv|].
       destruct (ov && is_some (get N.eqb (d_name d) (f_disk s))); [exact Hinv|].
       assert (Hnot : ~ In (d_name d) (f_names s)).
       { intro H. apply memN_In in H. congruence. }
       destruct (verify d c) eqn:V.
-      * set (s1 := mkFile (d_name d :: f_names s) _ _ _ _ _).
-        assert (H1 : file_inv s1).
-        { constructor; cbn [s1 f_names f_d2p f_disk f_cas]; auto.
-          - intros g p. destruct (N.eq_dec g (d_dig d)) as [->|Hne].
-            + rewrite (get_put_eq N.eqb Neqb_spec). intro E. injection E as <-. split; [now left|].
-              exists c. rewrite (get_put_eq N.eqb Neqb_spec). split; auto. now apply verify_spec in V as [V _].
-            + rewrite (get_put_neq N.eqb Neqb_spec) by exact Hne. intro E.
-              destruct (A _ _ E) as (Hp & c0 & Hc0 & Hh). split; [now right|]. exists c0. split; auto.
-              rewrite (get_put_neq N.eqb Neqb_spec); auto. intro; subst. contradiction.
-          - intros p c0. destruct (N.eq_dec p (d_name d)) as [->|Hne]; [intros _; now left|].
-            rewrite (get_put_neq N.eqb Neqb_spec) by exact Hne. intro E. right. eapply B; eauto. }
-        destruct (file_fetch d s1); cbn [fst]; [now apply file_inv_graph | exact H1].
-      * cbn [fst]. constructor; cbn [f_names f_d2p f_disk f_cas]; auto.
-        -- intros g p E. destruct (A _ _ E) as (Hp & c0 & Hc0 & Hh). split; auto. exists c0. split; auto.
-           rewrite (get_del_neq N.eqb Neqb_spec); auto. intro; subst. contradiction.
-        -- intros p c0 E. destruct (N.eq_dec p (d_name d)) as [->|Hne].
-           ++ rewrite (get_del_eq N.eqb) in E. discriminate.
-           ++ rewrite (get_del_neq N.eqb Neqb_spec) in E by exact Hne. eapply B; eauto.
+      * apply file_index_after_inv. now apply file_inv_named.
+      * cbn [fst]. now apply file_inv_failed.
   - destruct (file_fetch d s); exact Hinv.
   - destruct r; try exact Hinv; (destruct (file_exists d s); [|exact Hinv]; cbn [fst]; constructor; auto).
   - destruct r; try exact Hinv; destruct (get ref_eqb _ (r_index (f_res s))); exact Hinv.
@@ -1230,18 +1267,20 @@ Lemma runf_cons {S} (step : S -> op -> S * fout) s o h :
   (fst (runf step (fst (step s o)) h), snd (step s o) :: snd (runf step (fst (step s o)) h)).
 Proof. simpl. destruct (step s o) as [s1 x]. simpl. destruct (runf step s1 h). reflexivity. Qed.
 
-Lemma file_run_inv ig ov h : forall s, file_inv s -> file_inv (fst (runf (file_step true ig ov) s h)).
+Lemma file_run_inv ig ov h : forall s,
+  Forall no_alias h -> file_inv s -> file_inv (fst (runf (file_step true ig ov) s h)).
 Proof.
-  induction h as [|o h IH]; intros s H; [exact H|]. rewrite runf_cons. cbn [fst].
-  apply IH. now apply file_step_inv.
+  induction h as [|o h IH]; intros s Hna H; [exact H|]. rewrite runf_cons. cbn [fst].
+  inversion Hna; subst. apply IH; auto. now apply file_step_inv.
 Qed.
 
 (* no Fetch ever returns bytes that do not hash to the requested digest *)
 Lemma file_fetch_matches ig ov h d hash len :
+  Forall no_alias h ->
   let s := fst (runf (file_step true ig ov) file_init h) in
   snd (file_step true ig ov s (Fetch d)) = FO (OBytes hash len) -> hash = d_dig d.
 Proof.
-  intros s. pose proof (file_run_inv ig ov h _ file_inv_init) as [A B C]. fold s in A, B, C.
+  intros Hna s. pose proof (file_run_inv ig ov h _ Hna file_inv_init) as [A B C]. fold s in A, B, C.
   cbn [file_step]. unfold file_fetch.
   destruct (name_ok d s); [|discriminate].
   destruct (get N.eqb (d_dig d) (f_d2p s)) as [p|] eqn:E.
@@ -1252,56 +1291,32 @@ Qed.
 
 (* a refused or failed operation changes nothing (repaired code) *)
 Lemma file_failed_noop ig ov h o :
+  Forall no_alias h -> no_alias o ->
   let s := fst (runf (file_step true ig ov) file_init h) in
   fout_is_err (snd (file_step true ig ov s o)) = true -> fst (file_step true ig ov s o) = s.
 Proof.
-  intros s. pose proof (file_run_inv ig ov h _ file_inv_init) as Hinv. fold s in Hinv.
+  intros Hna Hnao s. pose proof (file_run_inv ig ov h _ Hna file_inv_init) as Hinv. fold s in Hinv.
   pose proof Hinv as [A B C]. destruct o; cbn [file_step]; try reflexivity.
-  - destruct (d_name d =? 0) eqn:En.
+  - cbn [no_alias] in Hnao. rewrite Hnao.
+    destruct (d_name d =? 0) eqn:En.
     + destruct ig; [reflexivity|].
       destruct (get gkey_eqb (gk d) (f_cas s)) eqn:Ec; [reflexivity|].
       destruct (verify d (limit_reader d c)) eqn:V; [|reflexivity].
-      set (s1 := mkFile _ _ _ (put gkey_eqb (gk d) (limit_reader d c) (f_cas s)) _ _).
-      assert (H1 : file_inv s1).
-      { change s1 with (fst (s1, FO OOk)). 
-        pose proof (file_step_inv false ov s (Push d c) Hinv) as H. cbn [file_step] in H.
-        rewrite En, Ec, V in H. fold s1 in H. destruct (file_fetch d s1); cbn [fst] in *.
-        - destruct H as [A' B' C']. constructor; auto.
-        - exact H. }
-      destruct (file_index_after_ok d s1 H1) as (c1 & Hc1).
-      { unfold name_ok. now rewrite En. }
-      { right. cbn [s1 f_cas]. rewrite (get_put_eq gkey_eqb gkey_eqb_spec). discriminate. }
-      rewrite Hc1. discriminate.
+      rewrite file_index_after_succeeds; [discriminate | now apply file_inv_unnamed | |].
+      * unfold name_ok. now rewrite En.
+      * right. cbn [f_cas]. rewrite (get_put_eq gkey_eqb gkey_eqb_spec). discriminate.
     + destruct (mem N.eqb (d_name d) (f_names s)) eqn:Em; [reflexivity|].
       destruct (ov && is_some (get N.eqb (d_name d) (f_disk s))); [reflexivity|].
+      assert (Hnot : ~ In (d_name d) (f_names s)).
+      { intro H. apply memN_In in H. congruence. }
       destruct (verify d c) eqn:V.
-      * set (s1 := mkFile (d_name d :: f_names s) _ _ _ _ _).
-        assert (H1 : file_inv s1).
-        { pose proof (file_step_inv ig ov s (Push d c) Hinv) as H. cbn [file_step] in H.
-          rewrite En, Em in H.
-          destruct (ov && is_some (get N.eqb (d_name d) (f_disk s))) eqn:Eo.
-          - (* cannot happen here, but the invariant does not need it *)
-            clear H. constructor; cbn [s1 f_names f_d2p f_disk f_cas]; auto.
-            + intros g p. destruct (N.eq_dec g (d_dig d)) as [->|Hne].
-              * rewrite (get_put_eq N.eqb Neqb_spec). intro E. injection E as <-. split; [now left|].
-                exists c. rewrite (get_put_eq N.eqb Neqb_spec). split; auto. now apply verify_spec in V as [V _].
-              * rewrite (get_put_neq N.eqb Neqb_spec) by exact Hne. intro E.
-                destruct (A _ _ E) as (Hp & c0 & Hc0 & Hh). split; [now right|]. exists c0. split; auto.
-                rewrite (get_put_neq N.eqb Neqb_spec); auto. intro; subst.
-                apply memN_In in Hp. congruence.
-            + intros p c0. destruct (N.eq_dec p (d_name d)) as [->|Hne]; [intros _; now left|].
-              rewrite (get_put_neq N.eqb Neqb_spec) by exact Hne. intro E. right. eapply B; eauto.
-          - rewrite V in H. fold s1 in H. destruct (file_fetch d s1); cbn [fst] in H.
-            + destruct H as [A' B' C']. constructor; auto.
-            + exact H. }
-        destruct (file_index_after_ok d s1 H1) as (c1 & Hc1).
-        { unfold name_ok. cbn [s1 f_names]. apply orb_true_iff. right. apply memN_In. now left. }
-        { left. cbn [s1 f_d2p]. rewrite (get_put_eq N.eqb Neqb_spec). discriminate. }
-        rewrite Hc1. discriminate.
+      * rewrite file_index_after_succeeds; [discriminate | now apply file_inv_named | |].
+        -- unfold name_ok. cbn [f_names]. apply orb_true_iff. right. apply memN_In. now left.
+        -- left. cbn [f_d2p]. rewrite (get_put_eq N.eqb Neqb_spec). discriminate.
       * intros _. cbn [fst].
         assert (Hd : get N.eqb (d_name d) (f_disk s) = None).
         { destruct (get N.eqb (d_name d) (f_disk s)) as [c0|] eqn:E; auto.
-          apply B in E. apply memN_In in E. congruence. }
+          apply B in E. contradiction. }
         rewrite (del_absent N.eqb _ _ Hd). now destruct s.
   - destruct (file_fetch d s); reflexivity.
   - destruct r; try reflexivity; (destruct (file_exists d s); [discriminate|reflexivity]).
@@ -1397,3 +1412,38 @@ Proof.
   split; auto. intros d r <-. simpl. rewrite Habs. simpl. repeat split; auto.
   intro Hr. destruct r; auto. congruence.
 Qed.
+
+
+(* known: two names for one path -- the second push overwrites the file the first digest
+   points to, and Fetch of the first descriptor returns the other bytes *)
+Definition w_alias := mkDesc 6 2 5 40.         (* digest 2, title = name 5 = "./" ++ name 1 *)
+Lemma file_alias_witness :
+  snd (runf (file_step true false false) file_init
+            [Push w_named w_good; Push w_alias (mkBlob 2 5 [] 2 []); Fetch w_named])
+    = [FO OOk; FO OOk; FO (OBytes 2 5)] /\ d_dig w_named = 1.
+Proof. vm_compute. auto. Qed.
+
+(* ---------- a concrete universe and history (non-vacuity of the OCI hypotheses) ---------- *)
+Definition ex_U (g : N) : gkey :=
+  if g =? 1 then (1, 1, 10) else if g =? 2 then (6, 2, 5) else (0, g, 0).
+Definition ex_man := mkDesc 1 1 10 0.
+Definition ex_layer := mkDesc 6 2 5 0.
+Definition ex_hist : list op :=
+  [ Push ex_man (mkBlob 1 10 [(6, 2, 5)] 1 [(6, 2, 5)]); Push ex_layer (mkBlob 2 5 [] 2 []);
+    Push ex_layer (mkBlob 2 5 [] 2 []); Tag ex_man (RName 1); Resolve (RName 1); Resolve (RDig 2);
+    Preds ex_layer; Delete ex_man; Resolve (RName 1); Preds ex_layer; Delete ex_man ].
+
+Lemma ex_U_dig : forall g, k_dig (ex_U g) = g.
+Proof.
+  intro g. unfold ex_U. destruct (g =? 1) eqn:E1; [apply N.eqb_eq in E1; now subst|].
+  destruct (g =? 2) eqn:E2; [apply N.eqb_eq in E2; now subst|]. reflexivity.
+Qed.
+
+Lemma ex_canon : Forall (canon_op ex_U) ex_hist.
+Proof. repeat constructor. Qed.
+
+Lemma ex_run :
+  snd (run oci_step oci_init ex_hist) =
+  [ OOk; OOk; OErr EAlreadyExists; OOk; ODesc ex_man; ODesc (mkDesc 0 2 5 0);
+    OPreds [(1, 1, 10)]; OOk; OErr ENotFound; OPreds []; OErr ENotFound ].
+Proof. vm_compute. reflexivity. Qed.
